@@ -1597,6 +1597,10 @@ func driveSched(kf *KnownFindings, t0 time.Time) int {
 		mp.Extra["runs_whose_in_process_reexecution_differed(library keeps state between runs; fresh processes agree)"] = int64(len(mp.Mismatch))
 		mp.Extra["of_which_verified_in_fresh_processes"] = int64(n)
 	}
+	if unrepeatable > 0 {
+		mp.Extra["runs_not_repeatable_across_fresh_processes(the library uses sync primitives whose behaviour is the runtime's, e.g. sync.Pool reuse)"] = int64(unrepeatable)
+		fmt.Printf("note: %d sampled C14 runs do not repeat exactly across fresh processes; the library uses synchronisation primitives of its own (%d statements), some of which behave as the runtime pleases\n", unrepeatable, len(rt.SyncSites))
+	}
 	writeSchedEvidence(mr, mp, 0, t0)
 	fmt.Printf("sim: C14 held on %d race-detector runs and %d plain runs (%d+%d context switches, %.1fs)\n", mr.Runs, mp.Runs, mr.Extra["switches"], mp.Extra["switches"], time.Since(t0).Seconds())
 	return 0
